@@ -96,6 +96,8 @@ TRUSTED = [
     "hand-written model Model/SymbolGraph.lean of symbol_graph.py, Symbol.__new__, let(T, None), evaluate() -> "
     "remove_dead_instances, HashedIterable caching",
     "this correspondence harness (history generators, the weak-reference census) and the S-expression driver",
+    "second tie: harness/translate/sg_translate.py (statement recognisers; strict, normalising) and the instruction semantics of "
+    "Model/SymbolGraphTable.lean; the interpreters run on SG.table are PROVED equal to the model functions (Props/C13Table.lean)",
 ]
 ASSUMPTIONS = [
     "CPython: an object is reclaimed by gc.collect() exactly when it is unreachable from the harness's references, "
